@@ -132,9 +132,9 @@ def one_pass(ch: Choices, spec: Dict[str, Any], forced: List[int], sample: Dict[
             set_qubit_state(qs[0], phi=spec["phi"], theta=spec["theta"])
         elif call == "parity_sequence":
             handles = []
-            for b in spec["sequence"]:
+            for b, blk in zip(spec["sequence"], spec["flush_block"]):
                 handles.append(parity_meas(qs, b))
-                conn.flush()
+                conn.flush(block=blk)      # (the stub controller finishes the subroutine before the host goes on either way)
                 drain("sequence")
             result = handles
         else:
@@ -210,6 +210,7 @@ def run(ch: Choices, opts: Dict[str, Any]) -> Dict[str, Any]:
             seq.append(b)
         spec["sequence"] = seq
         spec["forced_bits"] = [ch.draw(2, "branch") for _ in seq]
+        spec["flush_block"] = [not ch.flag(1, 3, "nonblocking") for _ in seq]
     else:
         n = 1 + ch.draw(3, "nq")
         spec["n"] = n
